@@ -222,3 +222,487 @@ Proof.
     split; [now apply Hold|]. intros t Ht. apply B. now apply TunsSub.
   - intros y u c Hu Hc. rewrite Net. apply (i_seen s I y u c); auto.
 Qed.
+
+(* ---- steps that keep the set of tunnels ----------------------------------------------------------------------- *)
+Ltac put_facts s z ns' ms reg s' :=
+  set (s' := put s z ns' ms reg);
+  assert (Tz : tuns s' z = n_tuns ns') by (unfold tuns, s'; now rewrite get_put_same);
+  assert (Gz : gone s' z = n_gone ns') by (unfold gone, s'; now rewrite get_put_same);
+  assert (Pz : pend s' z = n_pend ns') by (unfold pend, s'; now rewrite get_put_same);
+  assert (Dz : done s' z = n_done ns') by (unfold done, s'; now rewrite get_put_same);
+  assert (Oo : get s' (other z) = get s (other z)) by (unfold s'; apply get_put_other);
+  assert (Net : s_net s' = s_net s ++ ms) by apply net_put;
+  assert (Clk : s_clk s' = s_clk s + 1) by apply clk_put;
+  pose proof (reg_put s z ns' ms reg) as Reg; fold s' in Reg.
+
+Lemma pending_for_same po po' ns ns' u u' :
+  n_pend ns = po -> n_pend ns' = po' -> ready_same po po' -> tid u = tid u' ->
+  pending_for ns u -> pending_for ns' u'.
+Proof.
+  intros E E' [_ RS] Et [p (P1 & P2 & P3 & P4)]. rewrite E in P1.
+  destruct (RS p P1 P2) as [p' (Q1 & Q2 & Q3 & Q4 & _)].
+  destruct (tid_fields _ _ Et) as (_ & Er & Eh & _ & _).
+  exists p'. rewrite E'. repeat split; auto; congruence.
+Qed.
+
+Lemma inv_same s z ns' ms :
+  Inv s ->
+  Permutation (map tid (n_tuns ns')) (map tid (tuns s z)) ->
+  (forall t', In t' (n_tuns ns') -> exists t, In t (tuns s z) /\ tun_evolves s z t t') ->
+  n_gone ns' = n_gone (get s z) -> n_done ns' = n_done (get s z) ->
+  ready_same (n_pend (get s z)) (n_pend ns') ->
+  (forall m, In m ms -> msg_ok z ns' m) ->
+  Inv (put s z ns' ms None).
+Proof.
+  intros I HP HE HG HD HR HM. put_facts s z ns' ms (@None (N * (N * N * N))) s'.
+  cbn match in Reg.
+  assert (Back : forall t', In t' (tuns s' z) -> exists t, In t (tuns s z) /\ tun_evolves s z t t').
+  { intros t' H. rewrite Tz in H. now apply HE. }
+  assert (Fwd : forall t, In t (tuns s z) -> exists t', In t' (tuns s' z) /\ tid t' = tid t).
+  { intros t Ht. assert (In (tid t) (map tid (n_tuns ns'))) as H.
+    { apply (Permutation_in _ (Permutation_sym HP)). now apply in_map. }
+    apply in_map_iff in H as [t' [E Ht']]. exists t'. rewrite Tz. auto. }
+  assert (BackAny : forall x t', In t' (tuns s' x) -> exists t, In t (tuns s x) /\ tid t = tid t' /\ t_ctr t <= t_ctr t').
+  { intros x t' H. destruct (node_case x z) as [->| ->].
+    - destruct (Back t' H) as [t [Ht (E & C & _)]]. exists t. auto.
+    - unfold tuns in *. rewrite Oo in H. exists t'. repeat split; auto. lia. }
+  assert (FwdAny : forall x t, In t (tuns s x) -> exists t', In t' (tuns s' x) /\ tid t' = tid t).
+  { intros x t H. destruct (node_case x z) as [->| ->]; [now apply Fwd|].
+    exists t. unfold tuns in *. rewrite Oo. auto. }
+  assert (GoneEq : forall x, gone s' x = gone s x).
+  { intro x. destruct (node_case x z) as [->| ->]; [now rewrite Gz|]. unfold gone. now rewrite Oo. }
+  assert (DoneEq : forall x, done s' x = done s x).
+  { intro x. destruct (node_case x z) as [->| ->]; [now rewrite Dz|]. unfold done. now rewrite Oo. }
+  assert (PendRS : forall x, ready_same (pend s x) (pend s' x)).
+  { intro x. destruct (node_case x z) as [->| ->]; [rewrite Pz; exact HR|].
+    unfold pend. rewrite Oo. apply ready_same_refl. }
+  assert (Hold : forall x sd, holds_sid (get s x) sd \/ In sd (gone s x) -> holds_sid (get s' x) sd \/ In sd (gone s' x)).
+  { intros x sd [H|H]; [left|right; now rewrite GoneEq].
+    apply (holds_mono (get s x)); [|exact H]. intros t Ht. now apply FwdAny. }
+  assert (NetIn : forall m, In m (s_net s) -> In m (s_net s')).
+  { intros m H. rewrite Net. apply in_or_app. now left. }
+  assert (PermND : forall (g : N * N * N * N * bool -> N), NoDup (map g (map tid (tuns s z))) -> NoDup (map g (map tid (n_tuns ns')))).
+  { intros g ND. eapply Permutation_NoDup; [apply Permutation_map, Permutation_sym, HP|exact ND]. }
+  assert (Bt : forall x t, In t (tuns s' x) -> t_sid t < 2 * s_clk s' /\ t_hid t < 2 * s_clk s').
+  { intros x t' H. destruct (BackAny x t' H) as [t (Ht & E & _)].
+    destruct (tid_fields _ _ E) as (_ & _ & Eh & Es & _). destruct (i_bound_t s I x t Ht). rewrite Clk. lia. }
+  assert (Bp : forall x p, pend s' x = Some p -> p_ready p = true -> p_hid p < 2 * s_clk s').
+  { intros x p' P R. destruct (PendRS x) as [RS _]. destruct (RS p' P R) as [p (Q1 & Q2 & Q3 & _)].
+    pose proof (i_bound_p s I x p Q1 Q2). rewrite Clk. lia. }
+  assert (NDsid : forall x, NoDup (map t_sid (tuns s' x))).
+  { intro x. destruct (node_case x z) as [->| ->].
+    - rewrite Tz, map_sid. apply PermND. rewrite <- map_sid. apply (i_nodup_sid s I).
+    - unfold tuns. rewrite Oo. apply (i_nodup_sid s I). }
+  constructor.
+  - intro x. destruct (node_case x z) as [->| ->].
+    + rewrite Tz, map_tl. apply PermND. rewrite <- map_tl. apply (i_nodup_l s I).
+    + unfold tuns. rewrite Oo. apply (i_nodup_l s I).
+  - exact NDsid.
+  - intros x t' H. rewrite GoneEq. destruct (BackAny x t' H) as [t (Ht & E & _)].
+    destruct (tid_fields _ _ E) as (_ & _ & _ & Es & _). rewrite <- Es. now apply (i_gone_disj s I x).
+  - exact Bt.
+  - exact Bp.
+  - intros m H. rewrite Net in H. apply in_app_or in H as [H|H].
+    + eapply bound_mono; [|apply (i_bound_net s I m H)]. rewrite Clk. lia.
+    + specialize (HM m H). destruct m as [src i h ht|src i r h sd rt|src hidx sd fi c k|src idx]; cbn [msg_ok msg_bound] in *.
+      * destruct HM as [_ [p (P1 & P2 & P3 & _)]]. rewrite <- P3. apply (Bp z p); [now rewrite Pz|exact P2].
+      * destruct HM as [_ [u (U1 & _ & _ & _ & -> & ->)]]. rewrite <- Tz in U1. destruct (Bt z u U1). auto.
+      * destruct HM as [_ [u (U1 & _ & -> & _)]]. rewrite <- Tz in U1. destruct (Bt z u U1). auto.
+      * exact Logic.I.
+  - intros e. rewrite Reg, Clk. intro H. pose proof (i_bound_reg s I e H). lia.
+  - intros x sd. rewrite GoneEq, Clk. intro H. pose proof (i_bound_gone s I x sd H). lia.
+  - intros x h. rewrite DoneEq, Clk. intro H. pose proof (i_bound_done s I x h H). lia.
+  - rewrite Reg. apply (i_reg_fun s I).
+  - intros x t' H. destruct (BackAny x t' H) as [t (Ht & E & _)].
+    destruct (tid_fields _ _ E) as (_ & _ & Eh & Es & Ei). pose proof (i_owner s I x t Ht) as O.
+    unfold role_owner in *. now rewrite <- Eh, <- Es, <- Ei.
+  - intros x t' H. rewrite Reg. destruct (BackAny x t' H) as [t (Ht & E & _)].
+    destruct (tid_fields _ _ E) as (El & Er & Eh & Es & Ei). pose proof (i_reg_t s I x t Ht) as R.
+    unfold reg_entry in *. now rewrite <- El, <- Er, <- Eh, <- Es, <- Ei.
+  - intros src i r h sd rt H. rewrite Reg. rewrite Net in H. apply in_app_or in H as [H|H].
+    + destruct (i_net2 s I _ _ _ _ _ _ H) as (A & B & C). repeat split; auto.
+    + specialize (HM _ H). cbn [msg_ok] in HM. destruct HM as [-> [u (U1 & U2 & -> & -> & -> & ->)]].
+      rewrite <- Tz in U1. destruct (BackAny z u U1) as [t (Ht & E & _)].
+      destruct (tid_fields _ _ E) as (El & Er & Eh & Es & Ei).
+      destruct (i_owner s I z t Ht) as [O1 _]. rewrite Ei, U2 in O1. rewrite <- Es. split; [exact O1|]. split.
+      * pose proof (i_reg_t s I z t Ht) as R. unfold reg_entry in R. rewrite Ei, U2 in R.
+        now rewrite <- El, <- Er, <- Eh.
+      * left. exists u. rewrite Es. auto.
+  - intros src i h ht H. rewrite Net in H. apply in_app_or in H as [H|H].
+    + destruct (i_net1 s I _ _ _ _ H) as (A & B). split; [exact A|]. rewrite DoneEq.
+      destruct B as [[p (P1 & P2 & P3 & P4)]|B]; [left|now right].
+      destruct (PendRS src) as [_ RS]. destruct (RS p P1 P2) as [p' (Q1 & Q2 & Q3 & Q4 & _)].
+      exists p'. repeat split; auto; congruence.
+    + specialize (HM _ H). cbn [msg_ok] in HM. destruct HM as [-> [p' (P1 & P2 & P3 & P4)]].
+      rewrite <- Pz in P1. destruct (PendRS z) as [RS _]. destruct (RS p' P1 P2) as [p (Q1 & Q2 & Q3 & _)].
+      destruct (i_pend s I z p Q1 Q2) as (A & _). split; [congruence|]. left. exists p'. auto.
+  - intros x p' P R. rewrite DoneEq. destruct (PendRS x) as [RS _]. destruct (RS p' P R) as [p (Q1 & Q2 & Q3 & Q4 & _)].
+    destruct (i_pend s I x p Q1 Q2) as (A & B & C). rewrite <- Q3, <- Q4. split; [exact A|]. split; [exact B|].
+    intros t' H. destruct (BackAny x t' H) as [t (Ht & E & _)].
+    destruct (tid_fields _ _ E) as (El & _). rewrite <- El. now apply C.
+  - intros x t' H It. rewrite DoneEq. destruct (BackAny x t' H) as [t (Ht & E & _)].
+    destruct (tid_fields _ _ E) as (_ & _ & Eh & _ & Ei). rewrite <- Eh. apply (i_done_ini s I x t Ht). congruence.
+  - intros x sd. rewrite GoneEq, Reg, DoneEq. apply (i_gone_ini s I).
+  - intros y u' H Iu. rewrite DoneEq. destruct (BackAny y u' H) as [u (Hu & E & _)].
+    destruct (tid_fields _ _ E) as (_ & _ & Eh & _ & Ei).
+    destruct (i_resp_hs s I y u Hu) as [P|D]; [congruence| |right; congruence].
+    left. apply (pending_for_same (pend s (other y)) (pend s' (other y)) (get s (other y)) (get s' (other y)) u u');
+      [reflexivity|reflexivity|apply PendRS|exact E|exact P].
+  - intros x t' H It. destruct (BackAny x t' H) as [t (Ht & E & _)].
+    destruct (tid_fields _ _ E) as (_ & _ & _ & Es & Ei). rewrite <- Es. apply Hold.
+    apply (i_twin_held s I x t Ht). congruence.
+  - intros src hidx sd fi c k H. rewrite Net in H. apply in_app_or in H as [H|H].
+    + destruct (i_data s I _ _ _ _ _ _ H) as [A B]. split; [now apply Hold|].
+      intros t' Ht' Es. destruct (BackAny src t' Ht') as [t (Ht & E & C)].
+      destruct (tid_fields _ _ E) as (_ & _ & _ & Es' & _). assert (c <= t_ctr t) by (apply B; auto; congruence). lia.
+    + specialize (HM _ H). cbn [msg_ok] in HM. destruct HM as [-> [u (U1 & _ & -> & _ & C)]]. rewrite <- Tz in U1.
+      split; [left; exists u; auto|]. intros t' Ht' Es.
+      assert (t' = u) as -> by (eapply (nodup_map_inj t_sid); eauto). exact C.
+  - intros y u' c H Hc. destruct (node_case y z) as [->| ->].
+    + destruct (Back u' H) as [u (Hu & E & _ & S)]. destruct (tid_fields _ _ E) as (_ & _ & _ & Es & _).
+      rewrite <- Es. destruct (S c Hc) as [Hc'|(hidx & fi & k & Hn)].
+      * destruct (i_seen s I z u c Hu Hc') as (hidx & fi & k & Hn). exists hidx, fi, k. now apply NetIn.
+      * exists hidx, fi, k. now apply NetIn.
+    + unfold tuns in H. rewrite Oo in H. destruct (i_seen s I (other z) u' c H Hc) as (hidx & fi & k & Hn).
+      exists hidx, fi, k. now apply NetIn.
+Qed.
+
+(* ---- steps that add a tunnel, a pending handshake, finished handshakes, packets -------------------------------- *)
+Definition new_msg_ok (s' : st) (z : node) (m : msg) : Prop :=
+  match m with
+  | MStage2 src i r h sd _ => src = z /\ id_owner sd = z /\ In (sd, (h, r, i)) (s_reg s') /\ holds_sid (get s' z) sd
+  | MStage1 src i h _ => src = z /\ id_owner h = z /\
+                         exists p, pend s' z = Some p /\ p_ready p = true /\ p_hid p = h /\ p_idx p = i
+  | MData src _ sd _ c _ => src = z /\ exists t', In t' (tuns s' z) /\ t_sid t' = sd /\ c <= t_ctr t'
+  | MRecvErr _ _ => True
+  end.
+
+Lemma inv_grow s z ns' ms reg added dadd :
+  Inv s ->
+  let s' := put s z ns' ms reg in
+  let b := 2 * (s_clk s + 1) in
+  n_tuns ns' = added ++ tuns s z ->
+  n_gone ns' = gone s z ->
+  n_done ns' = dadd ++ done s z ->
+  NoDup (map t_l (added ++ tuns s z)) ->
+  NoDup (map t_sid (added ++ tuns s z)) ->
+  (forall t, In t added ->
+     ~ In (t_sid t) (gone s z) /\ t_sid t < b /\ t_hid t < b /\ role_owner z t /\ In (reg_entry t) (s_reg s') /\
+     (t_ini t = true -> In (t_hid t) (n_done ns')) /\
+     (t_ini t = false -> pending_for (get s (other z)) t \/ In (t_hid t) (done s (other z))) /\
+     (t_ini t = true -> holds_sid (get s (other z)) (t_sid t) \/ In (t_sid t) (gone s (other z))) /\
+     t_seen t = [] /\
+     (forall hidx fi c k, ~ In (MData z hidx (t_sid t) fi c k) (s_net s))) ->
+  (forall p, n_pend ns' = Some p -> p_ready p = true ->
+     p_hid p < b /\ id_owner (p_hid p) = z /\ ~ In (p_hid p) (n_done ns') /\
+     (forall t, In t (n_tuns ns') -> t_l t <> p_idx p)) ->
+  (forall i h ht, In (MStage1 z i h ht) (s_net s) ->
+     (exists p, n_pend ns' = Some p /\ p_ready p = true /\ p_hid p = h /\ p_idx p = i) \/ In h (n_done ns')) ->
+  (forall u, In u (tuns s (other z)) -> t_ini u = false -> pending_for (get s z) u ->
+     pending_for ns' u \/ In (t_hid u) (n_done ns')) ->
+  (forall h, In h dadd -> h < b) ->
+  match reg with Some e => fst e < b /\ ~ In (fst e) (map fst (s_reg s)) | None => True end ->
+  (forall m, In m ms -> msg_bound b m /\ new_msg_ok s' z m) ->
+  Inv s'.
+Proof.
+  intros I s' b HT HG HD ND1 ND2 HA HPn HS1 HPF HDb HReg HM. subst s'. put_facts s z ns' ms reg s'.
+  assert (Bb : b = 2 * s_clk s') by (unfold b; now rewrite Clk).
+  assert (Old : forall x t, In t (tuns s x) -> In t (tuns s' x)).
+  { intros x t H. destruct (node_case x z) as [->| ->]; [rewrite Tz, HT; apply in_or_app; now right|].
+    unfold tuns in *. now rewrite Oo. }
+  assert (New : forall x t, In t (tuns s' x) -> In t (tuns s x) \/ (x = z /\ In t added)).
+  { intros x t H. destruct (node_case x z) as [->| ->].
+    - rewrite Tz, HT in H. apply in_app_or in H as [H|H]; auto.
+    - unfold tuns in *. rewrite Oo in H. now left. }
+  assert (GoneEq : forall x, gone s' x = gone s x).
+  { intro x. destruct (node_case x z) as [->| ->]; [now rewrite Gz|]. unfold gone. now rewrite Oo. }
+  assert (DoneIn : forall x h, In h (done s x) -> In h (done s' x)).
+  { intros x h H. destruct (node_case x z) as [->| ->]; [rewrite Dz, HD; apply in_or_app; now right|].
+    unfold done in *. now rewrite Oo. }
+  assert (DoneO : done s' (other z) = done s (other z)) by (unfold done; now rewrite Oo).
+  assert (PendO : pend s' (other z) = pend s (other z)) by (unfold pend; now rewrite Oo).
+  assert (RegIn : forall e, In e (s_reg s) -> In e (s_reg s')).
+  { intros e H. rewrite Reg. destruct reg; [now right|exact H]. }
+  assert (NetIn : forall m, In m (s_net s) -> In m (s_net s')).
+  { intros m H. rewrite Net. apply in_or_app. now left. }
+  assert (Hold : forall x sd, holds_sid (get s x) sd \/ In sd (gone s x) -> holds_sid (get s' x) sd \/ In sd (gone s' x)).
+  { intros x sd [[u [Hu E]]|H]; [left; exists u; split; [now apply (Old x)|exact E]|right; now rewrite GoneEq]. }
+  assert (Lt : 2 * s_clk s < b) by (unfold b; lia).
+  constructor.
+  - intro x. destruct (node_case x z) as [->| ->]; [now rewrite Tz, HT|]. unfold tuns. rewrite Oo. apply (i_nodup_l s I).
+  - intro x. destruct (node_case x z) as [->| ->]; [now rewrite Tz, HT|]. unfold tuns. rewrite Oo. apply (i_nodup_sid s I).
+  - intros x t H. rewrite GoneEq. destruct (New x t H) as [H'|[-> H']]; [now apply (i_gone_disj s I x)|].
+    now destruct (HA t H').
+  - intros x t H. rewrite <- Bb. destruct (New x t H) as [H'|[-> H']].
+    + destruct (i_bound_t s I x t H'). lia.
+    + destruct (HA t H') as (_ & A & B & _). auto.
+  - intros x p P R. rewrite <- Bb. destruct (node_case x z) as [->| ->].
+    + rewrite Pz in P. now destruct (HPn p P R).
+    + rewrite PendO in P. pose proof (i_bound_p s I _ p P R). lia.
+  - intros m H. rewrite <- Bb. rewrite Net in H. apply in_app_or in H as [H|H].
+    + eapply bound_mono; [|apply (i_bound_net s I m H)]. lia.
+    + now destruct (HM m H).
+  - intros e H. rewrite <- Bb. rewrite Reg in H. destruct reg as [e0|].
+    + destruct H as [<-|H]; [now destruct HReg|]. pose proof (i_bound_reg s I e H). lia.
+    + pose proof (i_bound_reg s I e H). lia.
+  - intros x sd. rewrite GoneEq, <- Bb. intro H. pose proof (i_bound_gone s I x sd H). lia.
+  - intros x h H. rewrite <- Bb. destruct (node_case x z) as [->| ->].
+    + rewrite Dz, HD in H. apply in_app_or in H as [H|H]; [now apply HDb|]. pose proof (i_bound_done s I z h H). lia.
+    + rewrite DoneO in H. pose proof (i_bound_done s I _ h H). lia.
+  - rewrite Reg. destruct reg as [e0|]; [|apply (i_reg_fun s I)]. simpl. constructor; [now destruct HReg|apply (i_reg_fun s I)].
+  - intros x t H. destruct (New x t H) as [H'|[-> H']]; [now apply (i_owner s I x)|]. destruct (HA t H') as (_ & _ & _ & A & _). exact A.
+  - intros x t H. destruct (New x t H) as [H'|[-> H']]; [apply RegIn; now apply (i_reg_t s I x)|].
+    destruct (HA t H') as (_ & _ & _ & _ & A & _). exact A.
+  - intros src i r h sd rt H. rewrite Net in H. apply in_app_or in H as [H|H].
+    + destruct (i_net2 s I _ _ _ _ _ _ H) as (A & B & C). split; [exact A|]. split; [now apply RegIn|now apply Hold].
+    + destruct (HM _ H) as [_ (-> & A & B & C)]. auto.
+  - intros src i h ht H. rewrite Net in H. apply in_app_or in H as [H|H].
+    + destruct (i_net1 s I _ _ _ _ H) as (A & B). split; [exact A|]. destruct (node_case src z) as [->|E].
+      * rewrite Pz, Dz. now apply (HS1 i h ht).
+      * rewrite E in *. rewrite PendO, DoneO. exact B.
+    + destruct (HM _ H) as [_ (-> & A & B)]. split; [exact A|]. now left.
+  - intros x p P R. destruct (node_case x z) as [->| ->].
+    + rewrite Pz in P. destruct (HPn p P R) as (_ & A & B & C). rewrite Dz, Tz. auto.
+    + rewrite PendO in P. rewrite DoneO. destruct (i_pend s I _ p P R) as (A & B & C). split; [exact A|]. split; [exact B|].
+      intros t H. apply C. unfold tuns in *. now rewrite Oo in H.
+  - intros x t H It. destruct (New x t H) as [H'|[-> H']]; [apply DoneIn; now apply (i_done_ini s I x)|].
+    rewrite Dz. destruct (HA t H') as (_ & _ & _ & _ & _ & A & _). now apply A.
+  - intros x sd. rewrite GoneEq. intros H O. destruct (i_gone_ini s I x sd H O) as (h & r & i & A & B).
+    exists h, r, i. split; [now apply RegIn|now apply DoneIn].
+  - intros y u H Iu. destruct (New y u H) as [H'|[-> H']].
+    + destruct (i_resp_hs s I y u H' Iu) as [P|D]; [|right; now apply DoneIn].
+      destruct (node_case y z) as [->|E].
+      * left. now rewrite Oo.
+      * rewrite E in *. rewrite other_other in *.
+        assert (Gs : get s' z = ns') by (unfold s'; apply get_put_same). rewrite Gs, Dz. now apply HPF.
+    + rewrite Oo, DoneO. destruct (HA u H') as (_ & _ & _ & _ & _ & _ & A & _). now apply A.
+  - intros x t H It. destruct (New x t H) as [H'|[-> H']]; [apply Hold; now apply (i_twin_held s I x)|].
+    rewrite Oo. unfold gone. rewrite Oo. destruct (HA t H') as (_ & _ & _ & _ & _ & _ & _ & A & _). now apply A.
+  - intros src hidx sd fi c k H. rewrite Net in H. apply in_app_or in H as [H|H].
+    + destruct (i_data s I _ _ _ _ _ _ H) as [A B]. split; [now apply Hold|]. intros t Ht Es.
+      destruct (New src t Ht) as [H'|[-> H']]; [now apply B|].
+      destruct (HA t H') as (_ & _ & _ & _ & _ & _ & _ & _ & _ & A'). exfalso. rewrite <- Es in H. exact (A' _ _ _ _ H).
+    + destruct (HM _ H) as [_ (-> & t' & T1 & T2 & T3)]. split; [left; exists t'; auto|].
+      intros t Ht Es. assert (t = t') as ->; [|exact T3].
+      apply (nodup_map_inj t_sid (tuns s' z)); auto; [rewrite Tz, HT; exact ND2|congruence].
+  - intros y u c H Hc. destruct (New y u H) as [H'|[-> H']].
+    + destruct (i_seen s I y u c H' Hc) as (hidx & fi & k & Hn). exists hidx, fi, k. now apply NetIn.
+    + destruct (HA u H') as (_ & _ & _ & _ & _ & _ & _ & _ & A & _). rewrite A in Hc. destruct Hc.
+Qed.
+
+Lemma reg_functional (l : list (N * (N * N * N))) k v v' : NoDup (map fst l) -> In (k, v) l -> In (k, v') l -> v = v'.
+Proof.
+  intros ND H H'. assert ((k, v) = (k, v')) as E; [|now inversion E].
+  apply (nodup_map_inj fst l); auto.
+Qed.
+
+Lemma inv_new_pending s z ns' ms p' :
+  Inv s ->
+  n_tuns ns' = tuns s z -> n_gone ns' = n_gone (get s z) -> n_done ns' = n_done (get s z) ->
+  (forall p, n_pend (get s z) = Some p -> p_ready p = false) ->
+  n_pend ns' = Some p' -> p_ready p' = true -> p_hid p' = mk_id z (s_clk s) ->
+  used (p_idx p') (get s z) = false ->
+  ms = [MStage1 z (p_idx p') (p_hid p') (p_ht p')] ->
+  Inv (put s z ns' ms None).
+Proof.
+  intros I HT HG HD HN HP HR HH HU ->.
+  destruct (used_false _ _ HU) as [U1 U2].
+  apply (inv_grow s z ns' _ None [] []); auto.
+  - simpl. apply (i_nodup_l s I).
+  - simpl. apply (i_nodup_sid s I).
+  - intros t [].
+  - intros p P R. rewrite HP in P. inversion P; subst p. rewrite HH. split; [apply mk_id_lt|]. split; [apply id_owner_mk|]. split.
+    + rewrite HD. intro H. pose proof (i_bound_done s I z _ H). pose proof (mk_id_ge z (s_clk s)). lia.
+    + intros t Ht. rewrite HT in Ht. now apply U1.
+  - intros i h ht H. destruct (i_net1 s I _ _ _ _ H) as [_ [[p (P1 & P2 & _)]|D]].
+    + apply HN in P1. congruence.
+    + right. now rewrite HD.
+  - intros u _ _ [p (P1 & P2 & _)]. apply HN in P1. congruence.
+  - intros h [].
+  - intros m [<-|[]]. cbn [msg_bound new_msg_ok]. rewrite HH. split; [apply mk_id_lt|]. split; [reflexivity|]. split; [apply id_owner_mk|].
+    exists p'. unfold pend. rewrite get_put_same. auto.
+Qed.
+
+Lemma inv_drop_pending s z ns' ms p :
+  Inv s ->
+  n_pend (get s z) = Some p -> p_ready p = true -> n_pend ns' = None ->
+  n_tuns ns' = tuns s z -> n_gone ns' = n_gone (get s z) -> n_done ns' = p_hid p :: n_done (get s z) ->
+  ms = [] ->
+  Inv (put s z ns' ms None).
+Proof.
+  intros I HP HR HN HT HG HD ->.
+  apply (inv_grow s z ns' _ None [] [p_hid p]); auto.
+  - simpl. apply (i_nodup_l s I).
+  - simpl. apply (i_nodup_sid s I).
+  - intros t [].
+  - intros q Q. rewrite HN in Q. discriminate.
+  - intros i h ht H. right. rewrite HD. destruct (i_net1 s I _ _ _ _ H) as [_ [[q (Q1 & Q2 & Q3 & _)]|D]].
+    + unfold pend in Q1. rewrite HP in Q1. inversion Q1; subst q. now left.
+    + now right.
+  - intros u _ _ [q (Q1 & Q2 & Q3 & _)]. right. rewrite HD. rewrite HP in Q1. inversion Q1; subst q. now left.
+  - intros h [<-|[]]. pose proof (i_bound_p s I z p HP HR). lia.
+  - intros m [].
+Qed.
+
+Lemma inv_add_resp s z ns1 ms idx iidx hid ht t :
+  Inv s ->
+  In (MStage1 (other z) iidx hid ht) (s_net s) ->
+  used idx (get s z) = false ->
+  tid t = (idx, iidx, hid, mk_id z (s_clk s), false) -> t_seen t = [] ->
+  n_tuns ns1 = t :: tuns s z -> n_gone ns1 = n_gone (get s z) -> n_done ns1 = n_done (get s z) ->
+  n_pend ns1 = n_pend (get s z) ->
+  ms = [MStage2 z iidx idx hid (mk_id z (s_clk s)) (s_clk s)] ->
+  Inv (put s z ns1 ms (Some (mk_id z (s_clk s), (hid, idx, iidx)))).
+Proof.
+  intros I HN HU HI HS HT HG HD HP ->.
+  destruct (used_false _ _ HU) as [U1 U2].
+  unfold tid in HI. inversion HI as [[El Er Eh Es Ei]]. clear HI.
+  destruct (i_net1 s I _ _ _ _ HN) as [ON PN].
+  pose proof (i_bound_net s I _ HN) as BN. cbn [msg_bound] in BN.
+  pose proof (mk_id_ge z (s_clk s)) as GE. pose proof (mk_id_lt z (s_clk s)) as LT.
+  assert (RegS : s_reg (put s z ns1 [MStage2 z iidx idx hid (mk_id z (s_clk s)) (s_clk s)] (Some (mk_id z (s_clk s), (hid, idx, iidx))))
+                 = (mk_id z (s_clk s), (hid, idx, iidx)) :: s_reg s) by apply reg_put.
+  apply (inv_grow s z ns1 _ _ [t] []); auto.
+  - simpl. constructor; [|apply (i_nodup_l s I)]. intro H. apply in_map_iff in H as [u [E Hu]]. apply (U1 u Hu). congruence.
+  - simpl. constructor; [|apply (i_nodup_sid s I)]. intro H. apply in_map_iff in H as [u [E Hu]].
+    destruct (i_bound_t s I z u Hu). lia.
+  - intros t' [<-|[]]. split; [intro H; pose proof (i_bound_gone s I z _ H); lia|]. split; [lia|]. split; [lia|]. split.
+    { unfold role_owner. rewrite Ei, Es, Eh. split; [apply id_owner_mk|exact ON]. }
+    split. { rewrite RegS. left. unfold reg_entry. now rewrite Ei, Es, Eh, El, Er. }
+    split; [congruence|]. split.
+    { intros _. destruct PN as [[p (P1 & P2 & P3 & P4)]|D]; [left|right; congruence].
+      exists p. repeat split; auto; congruence. }
+    split; [congruence|]. split; [exact HS|].
+    intros hidx fi c k H. pose proof (i_bound_net s I _ H) as B. cbn [msg_bound] in B. lia.
+  - intros p P R. rewrite HP in P. pose proof (i_bound_p s I z p P R). destruct (i_pend s I z p P R) as (A & B & C).
+    split; [lia|]. split; [exact A|]. split; [now rewrite HD|]. intros u Hu. rewrite HT in Hu. destruct Hu as [<-|Hu].
+    + rewrite El. intro E. apply (U2 p P R). now symmetry.
+    + now apply C.
+  - intros i h ht' H. rewrite HP, HD. now destruct (i_net1 s I _ _ _ _ H).
+  - intros u _ _ [p (P1 & P2)]. left. exists p. now rewrite HP.
+  - intros h [].
+  - cbn [fst]. split; [lia|]. intro H. apply in_map_iff in H as [e [E He]]. pose proof (i_bound_reg s I e He). lia.
+  - intros m [<-|[]]. cbn [msg_bound new_msg_ok]. split; [lia|]. split; [reflexivity|]. split; [apply id_owner_mk|]. split.
+    + rewrite RegS. now left.
+    + exists t. rewrite get_put_same, HT. split; [now left|exact Es].
+Qed.
+
+Lemma inv_add_ini s z ns1 ms iidx ridx hid sid rt p t :
+  Inv s ->
+  In (MStage2 (other z) iidx ridx hid sid rt) (s_net s) ->
+  n_pend (get s z) = Some p -> p_ready p = true -> p_idx p = iidx -> p_hid p = hid ->
+  tid t = (iidx, ridx, hid, sid, true) -> t_seen t = [] ->
+  n_tuns ns1 = t :: tuns s z -> n_gone ns1 = n_gone (get s z) -> n_done ns1 = hid :: n_done (get s z) ->
+  n_pend ns1 = None ->
+  (forall m, In m ms -> exists c pl, m = MData z ridx sid true c (KData pl) /\ c <= t_ctr t) ->
+  Inv (put s z ns1 ms None).
+Proof.
+  intros I HN HP HR HIdx HHid HI HS HT HG HD HPn HM.
+  unfold tid in HI. inversion HI as [[El Er Eh Es Ei]]. clear HI.
+  destruct (i_net2 s I _ _ _ _ _ _ HN) as (ON & RN & HoN).
+  pose proof (i_bound_net s I _ HN) as [BN1 BN2]. fold (pend s z) in HP.
+  destruct (i_pend s I z p HP HR) as (OP & NDone & NoL). rewrite HHid in *. rewrite HIdx in *.
+  assert (F1 : forall u, In u (tuns s z) -> t_sid u <> sid).
+  { intros u Hu E. destruct (i_owner s I z u Hu) as [O1 _]. rewrite E, ON in O1. destruct (t_ini u) eqn:Iu.
+    - pose proof (i_reg_t s I z u Hu) as R. unfold reg_entry in R. rewrite Iu, E in R.
+      pose proof (reg_functional _ _ _ _ (i_reg_fun s I) R RN) as EE. inversion EE as [[Ehh _ _]].
+      apply NDone. rewrite <- Ehh. now apply (i_done_ini s I z u Hu).
+    - now apply (other_neq z). }
+  assert (F2 : ~ In sid (gone s z)).
+  { intro H. destruct (i_gone_ini s I z sid H ON) as (h' & r' & i' & R & D).
+    pose proof (reg_functional _ _ _ _ (i_reg_fun s I) R RN) as EE. inversion EE; subst. now apply NDone. }
+  assert (RegS : s_reg (put s z ns1 ms None) = s_reg s) by apply reg_put.
+  apply (inv_grow s z ns1 ms None [t] [hid]); auto.
+  - simpl. constructor; [|apply (i_nodup_l s I)]. intro H. apply in_map_iff in H as [u [E Hu]]. apply (NoL u Hu). congruence.
+  - simpl. constructor; [|apply (i_nodup_sid s I)]. intro H. apply in_map_iff in H as [u [E Hu]]. apply (F1 u Hu). congruence.
+  - intros t' [<-|[]]. rewrite Es, Eh. split; [exact F2|]. split; [lia|]. split; [lia|]. split.
+    { unfold role_owner. rewrite Ei, Es, Eh. auto. }
+    split. { rewrite RegS. unfold reg_entry. now rewrite Ei, Es, Eh, El, Er. }
+    split. { intros _. rewrite HD. now left. }
+    split; [congruence|]. split; [intros _; exact HoN|]. split; [exact HS|].
+    intros hidx fi c k H. destruct (i_data s I _ _ _ _ _ _ H) as [[[u [Hu E]]|G] _]; [now apply (F1 u Hu)|now apply F2].
+  - intros q Q. rewrite HPn in Q. discriminate.
+  - intros i h ht H. right. rewrite HD. destruct (i_net1 s I _ _ _ _ H) as [_ [[q (Q1 & Q2 & Q3 & _)]|D]].
+    + rewrite HP in Q1. inversion Q1; subst q. left. congruence.
+    + now right.
+  - intros u _ _ [q (Q1 & Q2 & Q3 & _)]. right. rewrite HD. unfold pend in HP. rewrite HP in Q1. inversion Q1; subst q. left. congruence.
+  - intros h [<-|[]]. pose proof (i_bound_p s I z p HP HR). lia.
+  - intros m Hm. destruct (HM m Hm) as (c & pl & -> & Hc). cbn [msg_bound new_msg_ok]. split; [lia|]. split; [reflexivity|].
+    exists t. unfold tuns. rewrite get_put_same, HT. split; [now left|]. split; [exact Es|exact Hc].
+Qed.
+
+Lemma del_l_perm l t : NoDup (map t_l l) -> In t l -> Permutation l (del_l (t_l t) l ++ [t]).
+Proof.
+  induction l as [|a l IH]; simpl; intros ND Hin; [destruct Hin|].
+  inversion ND as [|x y Hn ND']; subst. unfold has_l at 1. destruct Hin as [->|Hin].
+  - rewrite N.eqb_refl. simpl.
+    assert (del_l (t_l t) l = l) as ->.
+    { unfold del_l. apply filter_all. intros u Hu. unfold has_l. rewrite negb_true_iff, N.eqb_neq. intro E.
+      apply Hn. rewrite <- E. now apply in_map. }
+    apply Permutation_cons_append.
+  - destruct (t_l a =? t_l t) eqn:E.
+    + apply N.eqb_eq in E. exfalso. apply Hn. rewrite E. now apply in_map.
+    + simpl. constructor. now apply IH.
+Qed.
+
+(* every shape preserves the invariant *)
+Lemma inv_shape s z ns' ms reg : Inv s -> shape s z ns' ms reg -> Inv (put s z ns' ms reg).
+Proof.
+  intros I Sh. destruct Sh.
+  - now apply inv_same.
+  - eapply inv_new_pending; eauto.
+  - eapply inv_drop_pending; eauto.
+  - (* remove: an empty step, then the removal *)
+    subst ms. set (s1 := put s z (get s z) [] None).
+    assert (I1 : Inv s1).
+    { apply inv_same; auto using ready_same_refl.
+      - intros t' Ht'. exists t'. split; [exact Ht'|apply tun_evolves_refl].
+      - intros m []. }
+    rewrite <- (set_put s z (get s z) ns' [] None). fold s1.
+    assert (T1 : tuns s1 z = tuns s z) by (unfold tuns, s1; now rewrite get_put_same).
+    apply (inv_drop s1 z ns' [t]); auto.
+    + rewrite T1, H0. apply del_l_perm; auto. apply (i_nodup_l s I).
+    + unfold gone, s1. rewrite get_put_same. simpl. exact H1.
+    + unfold pend, s1. now rewrite get_put_same.
+    + unfold done, s1. now rewrite get_put_same.
+  - (* responder tunnel added, then the oldest retired *)
+    set (ns1 := mkN (n_pend ns') (t :: tuns s z) (n_swaps ns') (n_gone (get s z)) (n_done ns')).
+    set (e := (mk_id z (s_clk s), (hid, idx, iidx))).
+    assert (I1 : Inv (put s z ns1 ms (Some e))) by (eapply inv_add_resp; eauto).
+    rewrite <- (set_put s z ns1 ns' ms (Some e)).
+    apply (inv_drop _ z ns' drop); auto.
+    + unfold tuns. rewrite get_put_same. cbn [n_tuns ns1]. rewrite H5. fold (tuns s z). now rewrite H3.
+    + unfold gone. rewrite get_put_same. exact H6.
+    + unfold pend. now rewrite get_put_same.
+    + unfold done. now rewrite get_put_same.
+  - (* initiator tunnel added, then the oldest retired *)
+    set (ns1 := mkN None (t :: tuns s z) (n_swaps ns') (n_gone (get s z)) (n_done ns')).
+    assert (I1 : Inv (put s z ns1 ms None)) by (eapply inv_add_ini; eauto).
+    rewrite <- (set_put s z ns1 ns' ms None).
+    apply (inv_drop _ z ns' drop); auto.
+    + unfold tuns. rewrite get_put_same. cbn [n_tuns ns1]. rewrite H8. fold (tuns s z). now rewrite H6.
+    + unfold gone. rewrite get_put_same. exact H9.
+    + unfold pend. now rewrite get_put_same.
+    + unfold done. now rewrite get_put_same.
+Qed.
+
+Lemma inv_init : Inv init.
+Proof.
+  constructor; try (intros x; destruct x; simpl; constructor); try (intros; destruct x; simpl in *; tauto);
+    try (simpl; intros; tauto); try (intros; destruct x; simpl in *; discriminate).
+  - simpl. constructor.
+  - intros y u; destruct y; simpl; tauto.
+  - intros y u c; destruct y; simpl; tauto.
+Qed.
+
+Lemma inv_step c s e : Inv s -> Inv (fst (step c s e)).
+Proof.
+  intro I. destruct (step_shape c s e (i_nodup_l s I)) as (z & ns' & ms & reg & E & Sh).
+  rewrite E. now apply inv_shape.
+Qed.
+
+Lemma inv_run c evs s : Inv s -> Inv (run c s evs).
+Proof. revert s. induction evs as [|e r IH]; intros s I; [exact I|]. simpl. apply IH. now apply inv_step. Qed.
+
+Lemma inv_reachable c s : reachable c s -> Inv s.
+Proof. intros [evs ->]. apply inv_run. exact inv_init. Qed.
